@@ -1,6 +1,8 @@
 package vc
 
 import (
+	"strings"
+	"go/types"
 	"os"
 	"fmt"
 	"go/token"
@@ -651,6 +653,24 @@ func (b *bodyRun) runLoop(li *loopInfo) {
 					}
 				}
 			}
+			// localof("T"): the local variable of type T visible at the loop head
+			// when there is exactly one (parameters excluded)
+			for ts, nb := range b.localsByType(names) {
+				nb := nb
+				over["#localof:"+ts] = func(s2 *State) Value {
+					v, ok := s2.env[nb.val]
+					if !ok {
+						v = e.eval(s2, nb.val)
+					}
+					if nb.isAddr {
+						if p, ok := v.(*PtrV); ok {
+							se := &specEnv{e: e, st: s2}
+							return se.deref(p)
+						}
+					}
+					return v
+				}
+			}
 			// loopvar("T"): the loop-carried variable of type T when there is
 			// exactly one (a name-independent way to mention it)
 			byType := map[string][]*ssa.Phi{}
@@ -1156,6 +1176,15 @@ func (b *bodyRun) invResolves(inv Clause, names map[string]nameBinding, st *Stat
 	if ctrPhi != nil {
 		over["loopindex"] = func(s2 *State) Value { return s2.env[ctrPhi] }
 	}
+	for ts, nb := range b.localsByType(names) {
+		nb := nb
+		over["#localof:"+ts] = func(s2 *State) Value {
+			if v, ok := s2.env[nb.val]; ok {
+				return v
+			}
+			return e.eval(s2, nb.val)
+		}
+	}
 	for _, ins := range li.header.Instrs {
 		p, ok := ins.(*ssa.Phi)
 		if !ok {
@@ -1475,4 +1504,41 @@ func (b *bodyRun) evalPure(st *State, v ssa.Value) Value {
 	}
 	need(v)
 	return e.eval(tmp, v)
+}
+
+
+// localsByType maps a type (as written in Go, with uint8 spelt byte) to the
+// local variable of that type among names, when exactly one has it.
+func (b *bodyRun) localsByType(names map[string]nameBinding) map[string]nameBinding {
+	params := map[string]bool{}
+	for _, p := range b.fn.Params {
+		params[p.Name()] = true
+	}
+	count := map[string]int{}
+	pick := map[string]nameBinding{}
+	var keys []string
+	for n := range names {
+		keys = append(keys, n)
+	}
+	sort.Strings(keys)
+	for _, n := range keys {
+		nb := names[n]
+		if params[n] {
+			continue
+		}
+		T := nb.val.Type()
+		if nb.isAddr {
+			T = derefType(T)
+		}
+		ts := strings.ReplaceAll(types.TypeString(T, nil), "uint8", "byte")
+		count[ts]++
+		pick[ts] = nb
+	}
+	out := map[string]nameBinding{}
+	for ts, k := range count {
+		if k == 1 {
+			out[ts] = pick[ts]
+		}
+	}
+	return out
 }
